@@ -63,6 +63,7 @@ pass `designate` — ops: reset <0|1> <prefix-hex> <displayname-hex>
   pure forms (ptt.GetWebURL / bbs.NewArticleSummaryFromRaw on a constructed header):
     weburl <board-hex> <filename-hex>             => <url>
     entry <filename-hex> <owner0>                 => <id> <deleted> <filename>
+    cursor <text-hex>                             => no-crash   (bbs.DeserializeArticleIdxStr + bbs.LoadGeneralArticles with that cursor text)
     lookup <id-hex> <names-hex, 28 bytes each>    => none | <0-based position>   (cmsys.GetRecord on a .DIR holding these names, in time order)
   both passes: eq <filename-hex> <filename-hex>   => 0 | 1                        (Filename_t.Eq)
   codec pass, result aliasing: hold <op> <x1> … <xn> => the n answers of <op>, all read after the last call; conc <goroutines> <iterations> <seed> => ok -/
@@ -136,6 +137,9 @@ def stepC13 (st : Option Cfg) (ws : List String) : Option Cfg × String :=
             if names.length % FNLEN != 0 then "bad-op"
             else showM (fun r => match r with | none => "none" | some p => toString p) (lookupId (chunks FNLEN names (names.length / FNLEN)) id)
         | _, _, _ => "bad-op"
+    | ["cursor", c] => match st, parseHex c with
+        | some _, some _ => "no-crash"   -- the parse itself is modelled under C06; here: whatever the text, an answer
+        | _, _ => "bad-op"
     | ["xref", f] => match st, parseHex f with
         | some _, some fn => toHex (aidcText (copyInto FNLEN fn))
         | _, _ => "bad-op"
